@@ -3,6 +3,7 @@
     Every bound below holds at every moment of every run over an arbitrary source — finite of any
     length or endless — and depends only on the buffer size / thread count. *)
 Require Import Sedpack.Model.Base Sedpack.Generated.GenIter Sedpack.Model.Iter Sedpack.Proofs.IterProofs Sedpack.Proofs.ChainProofs.
+Require Import Sedpack.Proofs.RrAccount Sedpack.Proofs.ConcComp.
 Require Import Sedpack.Proofs.BatchProofs Sedpack.Model.PipeBase Sedpack.Generated.GenPipeline.
 Require Import Sedpack.Generated.GenLazyPool Sedpack.Model.LazyPool Sedpack.Proofs.LazyPoolInv Sedpack.Proofs.LazyPoolBound.
 From Coq Require Import Permutation.
@@ -83,6 +84,54 @@ Theorem c14_ordered_async_readahead :
     after (chain_source path ex psrc read) n (chain_init path ex psrc s0) = Some s -> (c_opened path ex psrc s - 1) * m <= n.
 Proof. exact chain_readahead. Qed.
 Print Assumptions c14_ordered_async_readahead.
+
+(** Round robin over lazily opened inner iterables, each of at least m elements (any source whose reachable states hand out such
+    iterables): every closed iterator was used up, so at every moment (opened - buffer) * m <= yielded. *)
+Theorem c14_round_robin_readahead :
+  forall (A : Type) (pick : nat -> nat -> nat) (b : nat), (forall j len, 0 < len -> pick j len < len) ->
+  forall (src : @source (list A)) (m : nat) (Good : s_state src -> Prop),
+  (forall s l s', Good s -> s_next src s = Some (l, s') -> m <= length l /\ Good s') ->
+  forall (fuel : nat) (s0 : s_state src), Good s0 ->
+    let st := rr_run src pick b fuel (rr_init src s0) in (rr_opened st - b) * m <= length (rr_out st).
+Proof. exact rr_readahead. Qed.
+Print Assumptions c14_round_robin_readahead.
+
+(** The shuffled concurrent reader as a composition, round_robin(pool.imap_unordered(process_and_list, paths), buffer_size = b):
+    the pool in ANY reachable state (every thread schedule) over the paths xs; round_robin at any moment of its run over what the pool
+    hands over, having pulled exactly what the pool has yielded so far (a generator advances only inside its consumer's next()).
+    The shard files taken exceed those accounted for by the examples handed over by at most 2T+2 (in flight) + b (slots). *)
+Theorem c14_shuffled_concurrent_readahead :
+  forall (path ex : Type) (read : path -> list ex) (m : nat), (forall p, m <= length (read p)) ->
+  forall (pick : nat -> nat -> nat), (forall j len, 0 < len -> pick j len < len) ->
+  forall (b T : nat) (xs : list path) (s : st path (list ex)) (later : list (list ex)) (fuel : nat),
+  reach path (list ex) (fun p => Some (read p)) T xs s -> Forall (fun l => m <= length l) later ->
+  let r := rr_run list_source pick b fuel (rr_init list_source (out s ++ later)) in
+  rr_opened r = length (out s) ->
+  (length xs - length (src s) - (2 * T + 2) - b) * m <= length (rr_out r).
+Proof. exact concurrent_shuffled_readahead. Qed.
+Print Assumptions c14_shuffled_concurrent_readahead.
+
+(** The shuffled async reader, round_robin_async(asyncstdlib.map(iterate_shard_async, paths), buffer_size = b), any stream of paths. *)
+Theorem c14_shuffled_async_readahead :
+  forall (path ex : Type) (read : path -> list ex) (m : nat), (forall p, m <= length (read p)) ->
+  forall (pick : nat -> nat -> nat), (forall j len, 0 < len -> pick j len < len) ->
+  forall (b : nat) (psrc : @source path) (fuel : nat) (s0 : s_state psrc),
+    let r := rr_run (shards_source path ex read psrc) pick b fuel (rr_init (shards_source path ex read psrc) s0) in
+    (rr_opened r - b) * m <= length (rr_out r).
+Proof. exact async_shuffled_readahead. Qed.
+Print Assumptions c14_shuffled_async_readahead.
+
+(** non-vacuity of the coupling hypothesis, and tightness: one worker (T = 1), 8 shards of 2 examples, round-robin buffer 1; after the
+    schedule below the pool has taken 7 paths and yielded 3 shards, round robin has pulled these 3 and handed over 4 examples:
+    (7 - 4 - 1) * 2 = 4 <= 4. *)
+Theorem c14_composition_nonvacuous :
+  let rd := fun p : nat => [p; p + 10] in
+  let s := run nat (list nat) (fun p => Some (rd p)) 1 (init nat (list nat) 1 [0; 1; 2; 3; 4; 5; 6; 7]) [0;0;0;0;0;0; 2;2;2;2; 0;0; 2;2; 0;0; 2;2;2;2; 0;0] in
+  let r := rr_run list_source (fun j len => j mod len) 1 8 (rr_init list_source (out s ++ [[9; 9]])) in
+  reach nat (list nat) (fun p => Some (rd p)) 1 [0; 1; 2; 3; 4; 5; 6; 7] s /\ rr_opened r = length (out s) /\
+  (8 - length (src s) - (2 * 1 + 2) - 1) * 2 = 4 /\ length (rr_out r) = 4.
+Proof. split; [apply run_reach; constructor | vm_compute; repeat split; reflexivity]. Qed.
+Print Assumptions c14_composition_nonvacuous.
 
 Theorem c14_nonvacuous :
   let st := sb_run (cycle_source [10; 20; 30] 0) (lcg_pick 1) (@rev nat) 4 50 (sb_init (cycle_source [10; 20; 30] 0) 0) in
